@@ -1,50 +1,78 @@
 #!/bin/bash
 # Self-test corpus of one property (thorough tier): every /verif/mutants/<id>/*.patch and
-# /verif/seeded/<id>*/patch.diff is applied to a scratch copy of /repo's working tree (outside /repo and
+# /verif/seeded/<id>-*/patch.diff is applied to a scratch copy of /repo's working tree (outside /repo and
 # /verif, removed at the end) and analysed; a mutant is "detected" when the analyser exits 1 on it.
 # Writes evidence/.selftest/<id>.json. Never reports a VIOLATION about /repo: a patch that does not
-# apply is skipped and recorded.
+# apply is skipped and recorded. Mutants are analysed by up to $SELFTEST_JOBS (default 6) workers, each
+# on its own scratch copy.
 # usage: selftest.sh <Cxx>
 set -u
 cd "$(dirname "$0")/.."
 . ./env.sh
 ID=$1
 REPO=${VERIF_REPO:-/repo}
+JOBS=${SELFTEST_JOBS:-6}
+VERIF=$(pwd)
 OUTDIR=evidence/.selftest
 mkdir -p "$OUTDIR"
 SCR=$(mktemp -d "${TMPDIR:-/tmp}/scriggosa-selftest.XXXXXX")
 trap 'rm -rf "$SCR"' EXIT
-mkdir -p "$SCR/repo" "$SCR/verif"
-rsync -a --exclude .git --exclude 'test/compare/cmd/cmd' "$REPO/" "$SCR/repo/"
-cp known_findings.txt "$SCR/verif/"
-(cd "$SCR/repo" && git init -q && git add -A >/dev/null 2>&1 && git -c user.email=x@x -c user.name=x commit -qm base >/dev/null 2>&1)
-results=()
+mkdir -p "$SCR/base" "$SCR/res"
+rsync -a --exclude .git --exclude 'test/compare/cmd/cmd' "$REPO/" "$SCR/base/"
+(cd "$SCR/base" && git init -q && git add -A >/dev/null 2>&1 && git -c user.email=x@x -c user.name=x commit -qm base >/dev/null 2>&1)
 shopt -s nullglob
-for p in mutants/$ID/*.patch seeded/${ID}-*/patch.diff; do
-  name=$(echo "$p" | sed 's#^mutants/##; s#^seeded/#seeded:#; s#/patch.diff$##; s#\.patch$##')
-  if ! (cd "$SCR/repo" && git apply --check "$OLDPWD/$p" 2>/dev/null); then
-    results+=("{\"mutant\":\"$name\",\"outcome\":\"skipped: patch does not apply to the current tree\"}")
-    continue
-  fi
-  (cd "$SCR/repo" && git apply "$OLDPWD/$p")
-  out=$(./bin/scriggosa -property "$ID" -tier quick -repo "$SCR/repo" -verif "$SCR/verif" 2>&1)
-  code=$?
-  first=$(echo "$out" | grep -a -m1 -E "^  (VIOLATED|UNDECIDED)" | cut -c1-300 | sed 's/\\/\\\\/g; s/"/\\"/g' | tr -d '\t')
-  if [ $code -eq 1 ]; then
-    results+=("{\"mutant\":\"$name\",\"outcome\":\"detected\",\"first_report\":\"$first\"}")
-  else
-    results+=("{\"mutant\":\"$name\",\"outcome\":\"missed\"}")
-  fi
-  (cd "$SCR/repo" && git checkout -q -- . && git clean -qfd)
+patches=(mutants/$ID/*.patch seeded/${ID}-*/patch.diff)
+if [ ${#patches[@]} -eq 0 ]; then
+  echo "{\"property_id\":\"$ID\",\"mutants\":[]}" > "$OUTDIR/$ID.json"
+  echo "self-test $ID: no mutants"
+  exit 0
+fi
+worker() {
+  w=$1; shift
+  dir="$SCR/w$w"
+  mkdir -p "$dir/verif"
+  cp -r "$SCR/base" "$dir/repo"
+  cp "$VERIF/known_findings.txt" "$dir/verif/"
+  for p in "$@"; do
+    name=$(echo "$p" | sed 's#^mutants/##; s#^seeded/#seeded:#; s#/patch.diff$##; s#\.patch$##')
+    safe=$(echo "$name" | tr '/:' '__')
+    if ! (cd "$dir/repo" && git apply --check "$VERIF/$p" 2>/dev/null); then
+      printf '{"mutant":"%s","outcome":"skipped: patch does not apply to the current tree"}\n' "$name" > "$SCR/res/$safe.json"
+      continue
+    fi
+    (cd "$dir/repo" && git apply "$VERIF/$p")
+    out=$("$VERIF/bin/scriggosa" -property "$ID" -tier quick -repo "$dir/repo" -verif "$dir/verif" 2>&1)
+    code=$?
+    first=$(echo "$out" | grep -a -m1 -E "^  (VIOLATED|UNDECIDED)" | cut -c1-300 | sed 's/\\/\\\\/g; s/"/\\"/g' | tr -d '\t')
+    if [ $code -eq 1 ]; then
+      printf '{"mutant":"%s","outcome":"detected","first_report":"%s"}\n' "$name" "$first" > "$SCR/res/$safe.json"
+    else
+      printf '{"mutant":"%s","outcome":"missed"}\n' "$name" > "$SCR/res/$safe.json"
+    fi
+    (cd "$dir/repo" && git checkout -q -- . && git clean -qfd)
+  done
+  rm -rf "$dir"
+}
+# distribute round-robin
+n=${#patches[@]}
+[ "$JOBS" -gt "$n" ] && JOBS=$n
+pids=()
+for ((w=0; w<JOBS; w++)); do
+  mine=()
+  for ((i=w; i<n; i+=JOBS)); do mine+=("${patches[$i]}"); done
+  worker "$w" "${mine[@]}" &
+  pids+=($!)
 done
+for p in "${pids[@]}"; do wait "$p"; done
 {
   echo "{\"property_id\":\"$ID\",\"mutants\":["
-  for i in "${!results[@]}"; do
-    [ "$i" -gt 0 ] && echo ","
-    echo "${results[$i]}"
+  first=1
+  for f in $(ls "$SCR/res"/*.json | sort); do
+    [ $first -eq 0 ] && echo ","
+    first=0
+    cat "$f"
   done
   echo "]}"
 } > "$OUTDIR/$ID.json"
 det=$(grep -c '"detected"' "$OUTDIR/$ID.json" || true)
-tot=${#results[@]}
-echo "self-test $ID: $det detected of $tot mutants (details in $OUTDIR/$ID.json)"
+echo "self-test $ID: $det detected of $n mutants (details in $OUTDIR/$ID.json)"
